@@ -26,10 +26,11 @@ import (
 )
 
 type apiFn struct {
-	name   string
-	gate   string // "" = none
-	before []string
-	note   string
+	name     string
+	gate     string // "" = none
+	before   []string
+	note     string
+	offences []string // site-precise descriptions of everything that is wrong around the gate
 }
 
 func die(format string, a ...interface{}) {
@@ -158,26 +159,92 @@ func recvOf(fd *ast.FuncDecl) (typ, name string) {
 	return id.Name, name
 }
 
-func analyseFn(fd *ast.FuncDecl, recv string) apiFn {
+// tracingOnly reports whether st is span / tracing set-up: `span, ctx := tracing.StartSpanFromContext(..)`,
+// `defer span.Finish()`, `span.LogKV(..)`.
+func tracingOnly(st ast.Stmt) bool {
+	isTracingCall := func(e ast.Expr) bool {
+		c, ok := e.(*ast.CallExpr)
+		if !ok {
+			return false
+		}
+		switch exprName(c.Fun) {
+		case "tracing.StartSpanFromContext", "span.Finish", "span.LogKV":
+			// arguments must not hide other calls
+			for _, a := range c.Args {
+				if len(callsIn(a)) > 0 {
+					return false
+				}
+			}
+			return true
+		}
+		return false
+	}
+	switch x := st.(type) {
+	case *ast.AssignStmt:
+		return len(x.Rhs) == 1 && isTracingCall(x.Rhs[0])
+	case *ast.DeferStmt:
+		return isTracingCall(x.Call)
+	case *ast.ExprStmt:
+		return isTracingCall(x.X)
+	}
+	return false
+}
+
+func stmtKind(st ast.Stmt) string {
+	switch st.(type) {
+	case *ast.IfStmt:
+		return "if-statement (a branch that can skip or precede the gate)"
+	case *ast.ReturnStmt:
+		return "return"
+	case *ast.AssignStmt:
+		return "assignment"
+	case *ast.ExprStmt:
+		return "call"
+	case *ast.ForStmt, *ast.RangeStmt:
+		return "loop"
+	case *ast.SwitchStmt, *ast.TypeSwitchStmt, *ast.SelectStmt:
+		return "switch/select"
+	case *ast.GoStmt:
+		return "go statement"
+	case *ast.DeferStmt:
+		return "defer"
+	case *ast.DeclStmt:
+		return "declaration"
+	}
+	return "statement"
+}
+
+func analyseFn(fset *token.FileSet, file string, fd *ast.FuncDecl, recv string) apiFn {
 	fn := apiFn{name: fd.Name.Name}
+	at := func(n ast.Node) string {
+		return fmt.Sprintf("%s:%d %s", file, fset.Position(n.Pos()).Line, fd.Name.Name)
+	}
 	if fd.Body == nil {
 		fn.note = "no-body"
+		fn.offences = append(fn.offences, at(fd)+": no body")
 		return fn
 	}
 	var before []string
+	var pre []string
 	for _, st := range fd.Body.List {
 		if g, ok := gateOf(st, recv); ok {
 			fn.gate = g
 			fn.before = before
+			fn.offences = pre
 			return fn
 		}
 		if containsValidate(st, recv) {
 			fn.note = "validate-call-not-a-checked-top-level-gate"
+			fn.offences = append(pre, at(st)+": the validate call is not a checked top-level gate (nested in a "+stmtKind(st)+", or its result is not returned): the gate can be skipped")
 			return fn
+		}
+		if !tracingOnly(st) {
+			calls := callsIn(st)
+			pre = append(pre, at(st)+": "+stmtKind(st)+" before the state gate"+map[bool]string{true: " calling " + strings.Join(calls, ", "), false: ""}[len(calls) > 0])
 		}
 		before = append(before, callsIn(st)...)
 	}
-	return fn // no validate call at all: ungated
+	return fn // no validate call at all: ungated (classification decides whether that is allowed)
 }
 
 // checkValidate verifies the body of API.validate statement by statement:
@@ -404,7 +471,7 @@ func main() {
 			if !x.Name.IsExported() {
 				continue
 			}
-			fns = append(fns, analyseFn(x, recv))
+			fns = append(fns, analyseFn(fset, filepath.Base(*apiPath), x, recv))
 		}
 	}
 	if len(consts) == 0 {
@@ -510,6 +577,20 @@ func main() {
 		b.WriteString("  ⟨" + leanStr(fn.name) + ", " + g + ", " + leanStrList(fn.before) + ", " + leanStr(fn.note) + "⟩" + sep + "\n")
 	}
 	b.WriteString("]\n\n")
+	var offences []string
+	for _, fn := range fns {
+		if fn.gate != "" || fn.note != "" {
+			offences = append(offences, fn.offences...)
+		}
+	}
+	if !validateOK {
+		offences = append(offences, filepath.Base(*apiPath)+" API.validate: body is not `state := api.cluster.State(); if _, ok := validAPIMethods[state][f]; ok { return nil }; return newAPIMethodNotAllowedError(..)`")
+	}
+	if !appendOK {
+		offences = append(offences, filepath.Base(*apiPath)+" appendMap: body is not the two-loop union of its arguments")
+	}
+	b.WriteString("/-- Site-precise list of everything around a state gate that is not span/tracing set-up followed by a\nchecked top-level `validate` (empty for a conforming source). -/\n")
+	b.WriteString("def gateOffences : List String := " + leanStrList(offences) + "\n\n")
 	b.WriteString("/-- API methods called from http/handler.go (`h.api.X`). -/\n")
 	b.WriteString("def handlerCalls : List String := " + leanStrList(handlerCalls) + "\n\n")
 	b.WriteString("end PV.C23\n")
